@@ -3,7 +3,8 @@
     differ in exactly one field ([with_X v cfg], Proofs/ShexBasics.v). *)
 From Coq Require Import List Ascii String ZArith NArith Bool Lia Permutation.
 From Shexer Require Import Lib.PyStr Lib.Dict Gen.Consts Model.Profiler Model.Tokens Model.Freq Model.Shexing.
-From Shexer Require Import Proofs.ShexBasics Proofs.ClosureLemmas.
+From Shexer Require Import Proofs.ShexBasics Proofs.ClosureLemmas Proofs.SelectRel.
+From Shexer Require Import Spec.Rdf Model.Tracker Model.SerialShexc Model.Run.
 Import ListNotations.
 
 Lemma map_res_map_res {A B C E} (f : B -> C) (g : A -> B) (r : A + E) :
@@ -668,3 +669,172 @@ Proof.
   apply Forall2_refl_on. intros sh. unfold shape_rel. repeat split.
   apply Forall2_refl_on. intros st. apply or_rel_refl.
 Qed.
+
+(** ** O6 — presentation options at run level.  [instances_report_mode]
+    ([r_mode]) is read by the serialiser only; the caller's namespaces
+    ([r_ns]) reach the shapes only through the token text frozen inside
+    [KStmt] comments.  [decimals] is not in the model at all (the rendering of
+    a figure is the placeholder the harness fills in, see SerialShexc.v): no
+    model function can depend on it. *)
+Definition with_mode (m : freq_mode) (c : rcfg) : rcfg :=
+  {| r_tau := r_tau c; r_targets := r_targets c; r_ns := r_ns c; r_shapes_ns := r_shapes_ns c;
+     r_cap := r_cap c; r_inverse := r_inverse c; r_remove_empty := r_remove_empty c;
+     r_discard_useless := r_discard_useless c; r_keep_less_specific := r_keep_less_specific c;
+     r_all_compliant := r_all_compliant c; r_disable_or := r_disable_or c;
+     r_allow_redundant_or := r_allow_redundant_or c; r_allow_opt := r_allow_opt c;
+     r_disable_exact := r_disable_exact c; r_disable_comments := r_disable_comments c; r_mode := m |}.
+
+Definition with_rns (ns : nsdict) (c : rcfg) : rcfg :=
+  {| r_tau := r_tau c; r_targets := r_targets c; r_ns := ns; r_shapes_ns := r_shapes_ns c;
+     r_cap := r_cap c; r_inverse := r_inverse c; r_remove_empty := r_remove_empty c;
+     r_discard_useless := r_discard_useless c; r_keep_less_specific := r_keep_less_specific c;
+     r_all_compliant := r_all_compliant c; r_disable_or := r_disable_or c;
+     r_allow_redundant_or := r_allow_redundant_or c; r_allow_opt := r_allow_opt c;
+     r_disable_exact := r_disable_exact c; r_disable_comments := r_disable_comments c; r_mode := r_mode c |}.
+
+Theorem O6_mode fa m c thr g : run_shapes fa (with_mode m c) thr g = run_shapes fa c thr g.
+Proof. reflexivity. Qed.
+
+(** comments up to the token text *)
+Definition tok_rel (k1 k2 : comment) : Prop :=
+  match k1, k2 with
+  | KStmt ch1 p1 n1 _ c1, KStmt ch2 p2 n2 _ c2 => ch1 = ch2 /\ p1 = p2 /\ n1 = n2 /\ c1 = c2
+  | KRaw t1, KRaw t2 => t1 = t2
+  | _, _ => False
+  end.
+
+Definition erase_tok (k : comment) : comment :=
+  match k with KStmt ch p n _ c => KStmt ch p n [] c | KRaw t => KRaw t end.
+
+Definition erase_tokens (s : stmt) : stmt :=
+  {| s_inv := s_inv s; s_prop := s_prop s; s_types := s_types s; s_choice := s_choice s;
+     s_card := s_card s; s_nocc := s_nocc s; s_prob := s_prob s; s_comments := map erase_tok (s_comments s) |}.
+
+Definition mod_tok : stmt -> stmt -> Prop := stmt_rel (fun x y : bool => x = y) tok_rel.
+
+Lemma tok_rel_erase k1 k2 : tok_rel k1 k2 -> erase_tok k1 = erase_tok k2.
+Proof.
+  destruct k1, k2; simpl; try contradiction.
+  - intros (-> & -> & -> & ->). reflexivity.
+  - intros ->. reflexivity.
+Qed.
+
+Lemma mod_tok_erase a b : mod_tok a b -> erase_tokens a = erase_tokens b.
+Proof.
+  intros [Hi Hp Ht Hc Hk Hn Hpr Hcm]. unfold erase_tokens. rewrite Hi, Hp, Ht, Hc, Hk, Hn, Hpr.
+  f_equal. induction Hcm as [|k1 k2 l1 l2 Hk12 F IH]; simpl; [reflexivity|].
+  rewrite (tok_rel_erase _ _ Hk12), IH. reflexivity.
+Qed.
+
+Lemma mod_tok_refl a : mod_tok a a.
+Proof.
+  constructor; try reflexivity. induction (s_comments a) as [|k l IH]; constructor; [|exact IH].
+  destruct k; simpl; repeat split.
+Qed.
+
+Lemma mod_tok_shapes l1 l2 :
+  Forall2 (shape_rel (fun _ => mod_tok)) l1 l2 -> map_shapes erase_tokens l1 = map_shapes erase_tokens l2.
+Proof.
+  intros F. induction F as [|a b l1 l2 Hab F IH]; simpl; [reflexivity|]. rewrite IH. f_equal.
+  destruct Hab as (H1 & H2 & H3 & H4). unfold map_stmts. rewrite H1, H2, H3. f_equal.
+  clear -H4. induction H4 as [|x y l1 l2 Hxy F IH]; simpl; [reflexivity|].
+  rewrite (mod_tok_erase _ _ Hxy), IH. reflexivity.
+Qed.
+
+(** whether [tune_token] fails does not depend on the namespaces *)
+Lemma tune_token_none ns1 ns2 t : tune_token ns1 t = None -> tune_token ns2 t = None.
+Proof.
+  unfold tune_token, prefixize_shape_name, prefixize_cornered.
+  destruct (prefixb c_STARTING_CHAR_FOR_SHAPE_NAME t).
+  - destruct (remove_corners_strict (slice_from t 1)) as [cand|]; [|reflexivity].
+    destruct (best_ns ns1 cand) as [[n p]|]; discriminate.
+  - destruct (mem_str t _); [discriminate|]. destruct (negb (contains (Str ":") t)).
+    + destruct (contains (Str "<") t); discriminate.
+    + destruct (prefixize_opt ns1 t); discriminate.
+Qed.
+
+Lemma comment_of_mod_tok c1 c2 a b :
+  mod_tok a b -> res_rel tok_rel (comment_of c1 a) (comment_of c2 b).
+Proof.
+  intros [Hi Hp Ht Hc Hk Hn Hpr Hcm]. unfold comment_of, s_type. rewrite Hc, Hpr, Hn, Hk, Ht.
+  destruct (s_choice b); simpl; [repeat split|].
+  destruct (tune_token (x_ns c1) (hd [] (s_types b))) as [t1|] eqn:E1,
+           (tune_token (x_ns c2) (hd [] (s_types b))) as [t2|] eqn:E2; simpl.
+  - repeat split.
+  - rewrite (tune_token_none _ (x_ns c1) _ E2) in E1. discriminate.
+  - rewrite (tune_token_none _ (x_ns c2) _ E1) in E2. discriminate.
+  - reflexivity.
+Qed.
+
+(** two shexing configurations that differ in the namespaces only *)
+Theorem shex_mod_ns fa cfg ns1 ns2 thr P C :
+  res_rel (Forall2 (shape_rel (fun _ => mod_tok)))
+          (shex fa (with_ns ns1 cfg) thr P C) (shex fa (with_ns ns2 cfg) thr P C).
+Proof.
+  set (c1 := with_ns ns1 cfg). set (c2 := with_ns ns2 cfg).
+  assert (Hag : cfg_agree c1 c2) by (unfold cfg_agree; simpl; repeat split).
+  assert (Hclass : forall ce, res_rel (shape_rel (fun _ => mod_tok))
+                                      (shex_class fa c1 thr C ce) (shex_class fa c2 thr C ce)).
+  { intros ce. rewrite !shex_class_eq.
+    change (class_sorted fa c1 thr C ce) with (class_sorted fa cfg thr C ce).
+    change (class_sorted fa c2 thr C ce) with (class_sorted fa cfg thr C ce).
+    assert (Frefl : forall l, Forall2 mod_tok l l) by (intros l; apply Forall2_refl_on, mod_tok_refl).
+    pose proof (select_valid_rel fa c1 c2 _ _ Hag (comment_of_mod_tok c1 c2) (class_cnt C ce) _ _
+                  (Frefl (filter (fun s => negb (s_inv s)) (class_sorted fa cfg thr C ce)))) as Hd.
+    pose proof (select_valid_rel fa c1 c2 _ _ Hag (comment_of_mod_tok c1 c2) (class_cnt C ce) _ _
+                  (Frefl (filter (fun s => s_inv s) (class_sorted fa cfg thr C ce)))) as Hi.
+    fold mod_tok in Hd, Hi.
+    destruct (select_valid fa c1 _ (filter (fun s => negb (s_inv s)) _)) as [vd1|e1],
+             (select_valid fa c2 _ (filter (fun s => negb (s_inv s)) _)) as [vd2|e2];
+      simpl in Hd; try contradiction; simpl; [|exact Hd].
+    destruct (select_valid fa c1 _ (filter (fun s => s_inv s) _)) as [vi1|e1],
+             (select_valid fa c2 _ (filter (fun s => s_inv s) _)) as [vi2|e2];
+      simpl in Hi; try contradiction; simpl; [|exact Hi].
+    pose proof (tune_rel fa c1 c2 _ _ Hag (comment_of_mod_tok c1 c2) (class_cnt C ce) _ _
+                  (Forall2_app Hd Hi)) as Ht. fold mod_tok in Ht.
+    destruct (tune fa c1 _ (vd1 ++ vi1)) as [s1|e1], (tune fa c2 _ (vd2 ++ vi2)) as [s2|e2];
+      simpl in Ht; try contradiction; simpl; [|exact Ht].
+    unfold shape_rel; simpl. repeat split. exact Ht. }
+  unfold shex.
+  assert (HM : res_rel (Forall2 (shape_rel (fun _ => mod_tok)))
+                       (map_err (shex_class fa c1 thr C) P) (map_err (shex_class fa c2 thr C) P)).
+  { induction P as [|ce P IH]; simpl; [constructor|]. pose proof (Hclass ce) as Hc.
+    destruct (shex_class fa c1 thr C ce) as [s1|e1], (shex_class fa c2 thr C ce) as [s2|e2];
+      simpl in Hc; try contradiction; [|exact Hc].
+    destruct (map_err (shex_class fa c1 thr C) P) as [r1|e1], (map_err (shex_class fa c2 thr C) P) as [r2|e2];
+      simpl in IH; try contradiction; simpl; [constructor; assumption | exact IH]. }
+  destruct (map_err (shex_class fa c1 thr C) P) as [M1|e1], (map_err (shex_class fa c2 thr C) P) as [M2|e2];
+    simpl in HM; try contradiction; [|exact HM].
+  change (x_remove_empty c1) with (x_remove_empty cfg). change (x_remove_empty c2) with (x_remove_empty cfg).
+  destruct (x_remove_empty cfg); [|exact HM].
+  rewrite (Forall2_len _ _ _ HM). apply clean_shapes_rel; [|exact HM].
+  intros n a b [Hi Hp Ht Hc Hk Hn Hpr Hcm]. repeat split; assumption.
+Qed.
+
+(** O6 for the caller's namespaces: same errors; on success the shapes are
+    equal once the token text inside comments is erased (the returned
+    namespace dictionaries differ, of course).  [RERandom] (no priority prefix
+    left for the shapes namespace) is the one outcome that depends on [r_ns]
+    alone, hence the two premises. *)
+Theorem O6_namespaces fa ns' c thr g ns1 ns2 :
+  full_ns (with_rns ns' c) = Some ns1 -> full_ns c = Some ns2 ->
+  res_rel (fun x y => fst x = ns1 /\ fst y = ns2 /\
+                      map_shapes erase_tokens (snd x) = map_shapes erase_tokens (snd y))
+          (run_shapes fa (with_rns ns' c) thr g) (run_shapes fa c thr g).
+Proof.
+  intros H1 H2. unfold run_shapes. rewrite H1, H2.
+  change (r_tau (with_rns ns' c)) with (r_tau c). change (r_targets (with_rns ns' c)) with (r_targets c).
+  change (r_cap (with_rns ns' c)) with (r_cap c). change (pcfg_of (with_rns ns' c)) with (pcfg_of c).
+  destruct (track _ _ _ g) as [ins|e]; [|reflexivity].
+  destruct (profile (pcfg_of c) ins g) as [[[P C] ID]|[|]]; try reflexivity.
+  change (scfg_of (with_rns ns' c) ns1) with (with_ns ns1 (scfg_of c ns2)).
+  change (scfg_of c ns2) with (with_ns ns2 (scfg_of c ns2)) at 2.
+  pose proof (shex_mod_ns fa (scfg_of c ns2) ns1 ns2 thr P C) as H.
+  destruct (shex fa (with_ns ns1 _) thr P C) as [L1|e1], (shex fa (with_ns ns2 _) thr P C) as [L2|e2];
+    simpl in H; try contradiction; simpl.
+  - repeat split. apply mod_tok_shapes. exact H.
+  - subst. reflexivity.
+Qed.
+
+Lemma run_shapes_no_prefix fa c thr g : full_ns c = None -> run_shapes fa c thr g = inr RERandom.
+Proof. intros H. unfold run_shapes. rewrite H. reflexivity. Qed.
